@@ -17,6 +17,22 @@ pub struct ConfigFile {
     pub extensions: BTreeMap<Key, Key>,
 }
 
+/// Split the manifest at the header of the i18n section, the header must start a line:
+/// the same text in a comment or a string before the section is not the section.
+fn split_at_config_section(manifest: &str) -> Option<(&str, &str)> {
+    const HEADER: &str = "[package.metadata.leptos-i18n]";
+    let mut offset = 0;
+    for line in manifest.split_inclusive('\n') {
+        let trimmed = line.trim_start();
+        if trimmed.starts_with(HEADER) {
+            let start = offset + (line.len() - trimmed.len());
+            return Some((&manifest[..start], &manifest[start + HEADER.len()..]));
+        }
+        offset += line.len();
+    }
+    None
+}
+
 impl ConfigFile {
     pub fn new(manifest_dir_path: &mut PathBuf) -> Result<ConfigFile> {
         manifest_dir_path.push("Cargo.toml");
@@ -26,8 +42,7 @@ impl ConfigFile {
 
         manifest_dir_path.pop();
 
-        let Some((before, i18n_cfg)) = cfg_file_str.split_once("[package.metadata.leptos-i18n]")
-        else {
+        let Some((before, i18n_cfg)) = split_at_config_section(&cfg_file_str) else {
             return Err(Error::ConfigNotPresent.into());
         };
 
